@@ -469,6 +469,13 @@ fn draw_src(r: &mut Rng) -> HashSrc {
                 let b = r.next_u64() as u8;               // one byte value repeated
                 v.iter_mut().for_each(|x| *x = b);
             }
+            4 => {
+                // binary forms that *look like* text: they start with the ASCII bytes of "T1" / "t1" / hex digits
+                r.fill(&mut v);
+                let pre: &[u8] = *r.pick(&[&b"T1"[..], &b"t1"[..], &b"T1A"[..], &b"00"[..], &b"\"T"[..]]);
+                v[..pre.len()].copy_from_slice(pre);
+                return HashSrc::Raw(v);
+            }
             _ => r.fill(&mut v),
         }
         // bias the length code / checksum bytes towards the strict-parser boundaries
